@@ -360,6 +360,127 @@ fn degen_outcome(c: &DegenCase) -> Outcome {
     o
 }
 
+// --------------------------------------------------------------------------------------------
+// series of requests at one library REP: several connections, changing routing prefixes, some
+// requests never answered. The reply must carry the envelope of THE REQUEST BEING ANSWERED.
+
+#[derive(Debug, Clone, Serialize, Deserialize, PartialEq, Eq, Hash)]
+pub struct SeriesReq {
+    pub conn: usize,
+    pub prefix: Vec<usize>,
+    pub payload: Vec<usize>,
+    /// the application replies; otherwise it just goes back to recv
+    pub answered: bool,
+}
+
+#[derive(Debug, Clone, Serialize, Deserialize, PartialEq, Eq, Hash)]
+pub struct SeriesCase {
+    pub conns: usize,
+    pub reqs: Vec<SeriesReq>,
+    pub seed: u32,
+}
+
+pub fn series_outcome(c: &SeriesCase) -> Outcome {
+    let mut o = Outcome::new(hash_of(c));
+    let unanswered = c.reqs.iter().any(|r| !r.answered);
+    let prefixes: std::collections::HashSet<&Vec<usize>> = c.reqs.iter().map(|r| &r.prefix).collect();
+    o.nontrivial = c.reqs.len() >= 2 && (unanswered || prefixes.len() >= 2);
+    if unanswered {
+        o.class("series-with-unanswered-request");
+    }
+    if prefixes.len() >= 2 {
+        o.class("series-with-changing-prefix");
+    }
+    let c2 = c.clone();
+    let (r, panics) = capture_panics(|| {
+        run_sim(async move {
+            let c = c2;
+            let mut f = vec![];
+            let mut sim = Sim::new();
+            let s = sim.socket(Kind::Rep, None);
+            let n = c.conns.clamp(1, 4);
+            let mut links = vec![];
+            for _ in 0..n {
+                let l = sim.link();
+                l.raw_handshake("DEALER", None);
+                let a = sim.attach(s, &l);
+                let _ = sim.run(a).await;
+                links.push(l);
+            }
+            let mut want: Vec<Vec<Frames>> = vec![vec![]; n];
+            for (k, rq) in c.reqs.iter().enumerate() {
+                let j = rq.conn % n;
+                let seed = c.seed.wrapping_add(k as u32 * 131);
+                let prefix = prefix_frames(&rq.prefix, seed);
+                let payload = frames(&rq.payload, seed);
+                let reply = frames(&[3, 0, 1], seed ^ 0x5555);
+                let mut wire = prefix.clone();
+                wire.push(vec![]);
+                wire.extend(payload.clone());
+                links[j].raw_send_now(&wire);
+                let r = sim.recv(s);
+                match sim.run(r).await {
+                    Ok(Some(Out::Recv(Ok(m)))) => {
+                        if m != payload {
+                            fail!(f, "C07/rep/request-stripping", "request #{} ({:?} + [empty] + {:?}): REP handed the application {:?}", k, rq.prefix, rq.payload, lens(&m));
+                        }
+                    }
+                    other => {
+                        fail!(f, "C07/rep/request-not-returned", "request #{}: {:?}", k, other.map(|o| o.map(|o| o.err_text().map(|s| s.to_string()))));
+                        return f;
+                    }
+                }
+                if rq.answered {
+                    let a = sim.send(s, &reply);
+                    match sim.run(a).await {
+                        Ok(Some(Out::Send(Ok(())))) => {}
+                        other => fail!(f, "C07/rep/reply-failed", "request #{}: {:?}", k, other),
+                    }
+                    let mut w = prefix.clone();
+                    w.push(vec![]);
+                    w.extend(reply.clone());
+                    want[j].push(w);
+                }
+                // after every step each connection carries exactly the replies to ITS answered
+                // requests, each behind the envelope of the request it answers
+                for (i, l) in links.iter().enumerate() {
+                    match l.lib_messages() {
+                        Ok(m) if m == want[i] => {}
+                        Ok(m) => {
+                            fail!(
+                                f,
+                                "C07/rep/reply-envelope-in-series",
+                                "after request #{} (connection {}, prefix {:?}, {}): connection {} carries {:?}, expected {:?}; earlier requests: {:?}",
+                                k,
+                                j,
+                                rq.prefix,
+                                if rq.answered { "answered" } else { "not answered" },
+                                i,
+                                m.iter().map(lens).collect::<Vec<_>>(),
+                                want[i].iter().map(lens).collect::<Vec<_>>(),
+                                c.reqs[..k].iter().map(|r| (r.conn % n, r.prefix.clone(), r.answered)).collect::<Vec<_>>()
+                            );
+                            return f;
+                        }
+                        Err(e) => {
+                            fail!(f, "C07/rep/wire-malformed", "connection {}: {}", i, e);
+                            return f;
+                        }
+                    }
+                }
+            }
+            f
+        })
+    });
+    if let Some(f) = r {
+        o.failures = f;
+    }
+    for p in panics {
+        o.fail(format!("C07/panic/{}", panic_sig(&p)), p);
+    }
+    o
+}
+
 pub fn shapes(max_large: usize) -> Vec<Vec<usize>> {
     let mut v: Vec<Vec<usize>> = vec![];
     for n in 1..=4usize {
@@ -449,6 +570,60 @@ pub fn run(ctx: &Ctx) -> (Report, PropertyMeta) {
     report.exhaustive_parts.push(format!("every wire message of 1..4 frames over {{empty, non-empty}} arriving at a library REP and at a library REQ awaiting a reply: {} cases", dc.len()));
     report.merge(r);
 
+    // series at one REP: every (prefix, answered?) x (prefix, answered?) pair on the same and on
+    // another connection, followed by an answered request with each prefix
+    let mut sc = vec![];
+    for p1 in PREFIXES {
+        for a1 in [true, false] {
+            for p2 in PREFIXES {
+                for a2 in [true, false] {
+                    for same in [true, false] {
+                        for p3 in PREFIXES {
+                            sc.push(SeriesCase {
+                                conns: 2,
+                                reqs: vec![
+                                    SeriesReq { conn: 0, prefix: p1.to_vec(), payload: vec![2], answered: a1 },
+                                    SeriesReq { conn: if same { 0 } else { 1 }, prefix: p2.to_vec(), payload: vec![0, 3], answered: a2 },
+                                    SeriesReq { conn: 0, prefix: p3.to_vec(), payload: vec![1], answered: true },
+                                ],
+                                seed: sc.len() as u32,
+                            });
+                        }
+                    }
+                }
+            }
+        }
+    }
+    let r = run_cases(ctx, "series", &sc, series_outcome);
+    report.exhaustive_parts.push(format!("series of 3 requests at one library REP over 4 prefixes x answered/unanswered x same/other connection: {} cases", sc.len()));
+    report.merge(r);
+    let n = t.pick(6_000, 150_000);
+    let r = run_random(
+        ctx,
+        "series",
+        n,
+        20..=80,
+        |s| {
+            let conns = s.range(1, 3);
+            let k = s.range(2, 8);
+            let reqs = (0..k)
+                .map(|_| {
+                    let pk = s.range(0, 3);
+                    SeriesReq {
+                        conn: s.below(conns),
+                        prefix: (0..pk).map(|_| s.pick(&[1usize, 5, 16, 255])).collect(),
+                        payload: (0..s.range(1, 3)).map(|_| s.pick(&[0usize, 0, 1, 7, 300])).collect(),
+                        answered: s.chance(2, 3),
+                    }
+                })
+                .collect();
+            SeriesCase { conns, reqs, seed: s.next() as u32 }
+        },
+        series_outcome,
+    );
+    report.sections.push(json!({"part": "random series of 2..8 requests at one library REP over 1..3 connections with changing prefixes, a third of them never answered", "cases": n}));
+    report.merge(r);
+
     // random shapes
     let n = t.pick(20_000, 400_000);
     let r = run_random(
@@ -494,11 +669,13 @@ pub fn run(ctx: &Ctx) -> (Report, PropertyMeta) {
     let total = report.evaluations;
     health(&mut report, "empty-frame-in-payload", total, 200);
     health(&mut report, "routing-prefix", total, 200);
+    health_abs(&mut report, "series-with-unanswered-request", 500);
+    health_abs(&mut report, "series-with-changing-prefix", 500);
 
     let _ = refcodec::hex;
     let meta = PropertyMeta {
         level: "exploration",
-        rule: "exhaustive payload shapes (1..4 frames, each empty / 1 / 255 / 256 / 70000 bytes) crossed with routing prefixes of 0..3 identity frames, for requests arriving at a library REP from raw REQ / DEALER peers, requests leaving a library REQ towards a raw REP, and library REQ <-> library REP end to end; all degenerate wire envelopes of 1..4 frames; proptest random shapes. Oracle (wire level, reference-decoded taps): REQ puts exactly [empty]+payload on the wire and returns a reply with exactly the delimiter removed; REP hands over exactly the frames after the first empty frame and sends prefix+[empty]+reply on the requesting connection only; degenerate envelopes are rejected or dropped and never surface as a zero-frame message. Non-trivial = payload has >= 2 frames or an empty frame, or a routing prefix is present (degenerate cases: all); distinct by shape tuple".into(),
+        rule: "exhaustive payload shapes (1..4 frames, each empty / 1 / 255 / 256 / 70000 bytes) crossed with routing prefixes of 0..3 identity frames, for requests arriving at a library REP from raw REQ / DEALER peers, requests leaving a library REQ towards a raw REP, and library REQ <-> library REP end to end; all degenerate wire envelopes of 1..4 frames; series of 2..8 requests at one library REP over 1..3 connections with changing routing prefixes where some requests are never answered (the reply must carry the envelope of the request being answered, on its connection); proptest random shapes. Oracle (wire level, reference-decoded taps): REQ puts exactly [empty]+payload on the wire and returns a reply with exactly the delimiter removed; REP hands over exactly the frames after the first empty frame and sends prefix+[empty]+reply on the requesting connection only; degenerate envelopes are rejected or dropped and never surface as a zero-frame message. Non-trivial = payload has >= 2 frames or an empty frame, or a routing prefix is present (degenerate cases: all); distinct by shape tuple".into(),
         assumptions: vec!["requests with no empty frame at all are outside the statement: only 'no panic, no zero-frame message' is asserted for them".into()],
         exhaustive: false,
     };
@@ -509,6 +686,7 @@ pub fn replay(_ctx: &Ctx, kind: &str, case: &Value) -> Vec<Failure> {
     match kind {
         "envelope" => parse_case::<EnvCase>(case).map(|c| env_outcome(&c).failures),
         "degenerate" => parse_case::<DegenCase>(case).map(|c| degen_outcome(&c).failures),
+        "series" => parse_case::<SeriesCase>(case).map(|c| series_outcome(&c).failures),
         _ => Err(vec![Failure::new("replay/unknown-kind", kind.to_string())]),
     }
     .unwrap_or_else(|e| e)
